@@ -23,7 +23,6 @@ open GIV GIV.TsLife
 instance : FEnv := ⟨rfl⟩
 instance : FRef := ⟨rfl, rfl, rfl, rfl, rfl, rfl, rfl⟩
 instance : FDefer := ⟨rfl⟩
-instance : FNames := ⟨rfl⟩
 instance : FRun := ⟨rfl, rfl, rfl, rfl, rfl, rfl, rfl, rfl⟩
 
 /-! ### the environment is built from scratch -/
@@ -152,6 +151,7 @@ theorem names_unique : ∀ (files : List String),
     ∃ names, assignNames (files.map scriptBase) = some names ∧ names.Nodup ∧ names.length = files.length ∧
       (∀ k (hk : k < names.length) (hf : k < files.length), ∃ j, names[k] = cand (scriptBase files[k]) j) ∧
       ∀ root, (names.map (workdirOf root)).Nodup := by
+  have _ : FNames := ⟨rfl⟩   -- the loop has the shape the model transcribes
   intro files
   have hs := assignFrom_isSome (files.map scriptBase) []
   cases h : assignFrom [] (files.map scriptBase) with
